@@ -127,3 +127,20 @@ TEXT["C17"] = {
  "note": "Absence of undefined behaviour in compiled C++ for every call sequence cannot be exhibited by a model: sanitizer runs are runtime evidence, not a theorem.",
  "technique": "Lean 4 proof (length arithmetic for all n, layout table) + sanitizer runs",
 }
+TEXT["C16"] = {
+ "level": "Lean 4 theorems over abstract groups with an explicitly bilinear map, ARBITRARY encoders and an arbitrary caller-supplied hash function: for every identity point, master scalar (no bound: scalars >= r included), "
+          "encryption scalar and output length (0 included) decryption feeds the hash exactly the byte string encryption fed it (hash_input_eq), hence the same symmetric key; the secret key is the master scalar times the identity point; "
+          "with fixed-length injective encoders, equal hashed buffers force equal identity, ciphertext and pairing encodings (binding).  The executable LQ-IBE model (Impl/Lqibe.lean) is tied to src/lqibe/api.cpp by the stateful correspondence: "
+          "setup/keygen/encrypt/decrypt through the C API with a recording hash_fill callback whose input bytes are compared, draw for draw, with the model over the Spec pairing; modified ciphertexts, other identities, other master keys, unmarshalled master scalars >= r.",
+ "note": "Named hypotheses: H-bilinear (the concrete pairing is bilinear), H-card (cofactor-cleared hash-to-curve lands in G1).  The identity derivation (try-and-increment + cofactor) is C10's.  Trusted: hand model mirrors api.cpp (checked by running both).",
+ "technique": "Lean 4 proof (abstract bilinear group, byte-list equalities) + stateful differential correspondence with recorded hash inputs",
+}
+TEXT["C08"] = {
+ "level": "Lean 4 theorems about the Miller-loop model (hand-written loop skeleton of pairing.cpp over the doubling/addition steps, ell, Fq12 operations and final exponentiation REGENERATED from pairing.cpp/fq12.cpp on every run; the judge ties the model to the real code exactly: stored coefficients, raw Miller values, pairing values).  "
+          "For every coefficient type (no algebra used): G2Prepared::prepare stores exactly the coefficient sequence the on-the-fly loop computes, in consumption order, and always exactly num_coeffs = 68 of them; the Miller loop and the pairing with a prepared second argument equal the plain ones for EVERY g1, g2 (identity members included).  "
+          "For every commutative ring of coefficients: the Miller value of any lists of plain and prepared pairs (any lengths incl. zero, any mixture) is the product of the single-pair Miller values; splitting lists splits the value; the empty product is 1; a pair with an identity member contributes 1 wherever it stands; "
+          "replacing plain pairs by prepared ones does not change pairing_product.  Correspondence: pairing_sum / prepared_pairing / prepare through the C API on list shapes 0..4 with identities at every position, mixed affine/prepared, judged against the product of Spec pairings.",
+ "note": "The last step 'final exponentiation of a product = product of final exponentiations' is proved in Proofs/FinalExp.lean when that module is present (field + lawful Frobenius tables); until then pairing_product is proved equal to the final exponentiation of the product of single Miller values.  "
+         "Trusted: the loop skeleton mirrors miller_loop (tied by running both), translator for the steps.",
+ "technique": "Lean 4 proof (induction over loop bits and pair lists; ring identities for ell/square/conjugate) + differential correspondence on list shapes",
+}
